@@ -96,6 +96,16 @@ Theorem C08_booked_le_pet : forall (e : evatra_in (T:=R)) (x : water_in (T:=R)) 
   0 <= booked_aet k x <= ei_verdu e.
 Proof. exact booked_le_pet_lemma. Qed.
 
+(* the season (per-crop sums of the crop record).  [season_run] folds the days: ETC0 += potential ET, ETAG += booked
+   actual ET, TRAG += its transpiration part; the sowing day zeroes all three, harvest records them and zeroes ETAG/TRAG
+   (DayWaterModel.season_reset).  [season_stmt] (EvatraProofs.v) is the conjunction of: (1) if every day books
+   0 <= transpiration <= actual <= potential, every crop record has 0 <= TraG <= ETaG <= ETcG, for every sequence of days,
+   sowings and harvests; (2) a day of Evatra + k Water sub-steps of length 1/k is such a day (from C08_booked_le_pet);
+   (3) the joint reset at sowing is needed: if only ETC0 is zeroed there, a fallow day followed by sowing, one day of
+   growth and harvest gives ETaG > ETcG *)
+Theorem C08_season_aet_le_pet : season_stmt.
+Proof. exact season_stmt_lemma. Qed.
+
 (* the stress ratios: ETREL in [0,1] whenever it is assigned (crop branch; unchanged on bare soil);
    TRREL in [0,1] when TRAMAX > 0, unchanged when TRAMAX <= 0 in the crop branch, 1 on bare soil *)
 Theorem C08_ratios : forall x : evatra_in (T:=R), evatra_wf x ->
@@ -182,6 +192,7 @@ Print Assumptions C08_redistribute_in_evatra.
 Print Assumptions C08_uptake_zone.
 Print Assumptions C08_uptake_avail.
 Print Assumptions C08_booked_le_pet.
+Print Assumptions C08_season_aet_le_pet.
 Print Assumptions C08_ratios.
 Print Assumptions C08_pet_in_range.
 Print Assumptions C08_et0_methods_nonneg.
